@@ -1,6 +1,6 @@
 # Sizing and claim for C06 (see props/__init__.py)
 SPEC = {
-        "quick": {"rc_cases": 60000, "rc_procs": 4, "enum": True},
+        "quick": {"rc_cases": 100000, "rc_procs": 8, "enum": True},
         "thorough": {"rc_cases": 600000, "rc_procs": 8, "enum": True},
         "claim": {
             "category": "exploration",
